@@ -41,6 +41,16 @@ CHECKS = {
         text="For each request six configurations are run; in the deferred ones every completion order of the in-flight resolver tasks is explored depth-first up to a bound (then sampled). Data and error paths must equal the reference in every schedule, unexpected resolver exceptions must surface as the overall failure, and a result that is still pending when no task is left is a violation (liveness restated as progress at quiescence).",
         note="Schedules are sequences of single task completions; intra-statement interleavings that CPython 3.12 cannot produce are out of reach. Distinct schedules per configuration are counted in the evidence.",
         design="4/C08, 3.4"),
+    "C09": dict(
+        technique="resolver spies and a recording instrumentation write start/finish events with a logical clock to a thread-safe log while mutations run under the schedule controller (all six configurations); an offline checker verifies pairwise serial order of top-level fields and compares the response with the reference executor",
+        text="For every explored completion order of nested deferred resolvers the first event under a later top-level mutation field must follow the last event under every earlier one; all top-level fields run even after a ResolverError; key order and data equal the reference.",
+        note="Event order is a logical clock taken under a lock at the hook / resolver boundary; schedules as in C08.",
+        design="4/C09"),
+    "C16": dict(
+        technique="recording instrumentations (1-3 stacked), recording middlewares (0-3) and resolver spies write to one thread-safe event log under the schedule controller; offline checkers decide the stage grammar, field exactly-once pairing against the set of fields the reference executor resolves, middleware traversal order and stack order",
+        text="Every request outcome class (syntax, validation, variable, operation-name errors, success, partial failure) is observed under six configurations and explored schedules; the recorded log must satisfy the pairing / nesting / exactly-once specification.",
+        note="Resolved fields = response paths visited by R-EXEC; crashing resolvers are outside this property (C08).",
+        design="4/C16"),
 }
 
 PENDING_REASON = "check not built yet in this session (planned: see DESIGN.md section 4); no claim is made"
